@@ -17,7 +17,8 @@ func init() {
 			"(3) requestAPIVersions stores the version table parsed from THIS connection's response on every successful return (a cached table from another connection is never kept instead), built from every advertised key's min and max; " +
 			"(4) a KIP-511 downgrade is accepted only for 0 <= v < maxVersion (strictly decreasing, so the retry loop terminates), and an UNSUPPORTED_VERSION reply to v0 fails; " +
 			"(5) the negotiated version is stored in the request object and read back at serialisation, so every issueShard built in a per-broker loop carries a request created in that iteration (closures handed to allBrokersShardedReq return a copy made inside the closure); " +
-			"(6) pins reach handleReq as context values: wherever a kgo function forwards its request parameter together with a context, that context is the function's own context parameter or context.With*(…) of it (greatest-fixpoint derivation over all assignments), never one rebuilt from cl.ctx.",
+			"(6) pins reach handleReq as context values: wherever a kgo function forwards its request parameter together with a context, that context is the function's own context parameter or context.With*(…) of it (greatest-fixpoint derivation over all assignments), never one rebuilt from cl.ctx; " +
+			"(7) connection init requests ApiVersions under a guard that holds for every user maximum >= 0 of key 18 (a cap of exactly v0 still asks; only a MaxVersions without key 18 skips it), and a context carrying a pin is built per piece of a split from that piece's own pin (never cached across the pieces, which can carry different pins).",
 		NotDecided: "nothing value-level beyond comparisons (the function touches versions only through < and >); that every request type's MaxVersion() is what the codec supports is C24.",
 		Run:        runC21,
 	})
@@ -39,6 +40,8 @@ func runC21(c *Ctx) {
 	c21versionsStore(c, m)
 	c21perBrokerRequest(c, m)
 	c21pinContext(c, m)
+	c21apiVersionsIssued(c, m)
+	c21pinPerPiece(c, m)
 }
 
 // c21versionsStore: the table a connection's ApiVersions response advertised
